@@ -76,7 +76,8 @@ class C20(Prop):
                 "read_multi_eq_memory", "read_multi_inconsistent", "read_multi_file_error", "read_multi_var_eq_memory",
                 "read_multi_consistent_counterexample",
                 "readFile_storeDs_eq", "readFile_storeDs", "reloadDs_same", "write_read_multi_eq_memory", "write_read_multi_inconsistent",
-                "readFile_storeDs_shared_counterexample", "readFile_storeDs_keys_counterexample"]
+                "readFile_storeDs_shared_counterexample", "readFile_storeDs_keys_counterexample",
+                "readFile_storeDs_indexed_partial", "readFile_storeDs_indexed_error"]
     rule = ("files written through dimarray (vendored netCDF4 stand-in): a variable of rank 0-3 with int/float/str labels in any "
             "order is read through the on-disk handle - open_nc(f)[name][idx], .ix / .loc / .sel / .isel, read_nc(f, name, "
             "indices=, indexing=, tol=) - with every index form of C01/C02 (scalars, lists, masks, slices, dicts, tolerance) in "
